@@ -59,7 +59,9 @@ def loop_mtime_ok(F, body, arg_op, max_hops=3):
         hops += 1
     fl = flow_of(cur_body)
     gets = [o for o in os_ if o.kind == 'call' and o.key.endswith('::get')]
-    others = [o for o in os_ if o.kind not in ('comb', 'agg') and o not in gets]
+    # a mapper given as a function item (`.and_then(mtime_of)`) is judged like a mapping closure
+    fnmaps = [o for o in os_ if o.kind == 'const' and str(o.key).startswith('fn:') and F.body(str(o.key)[3:]) is not None]
+    others = [o for o in os_ if o.kind not in ('comb', 'agg') and o not in gets and o not in fnmaps]
     if not gets or others:
         return False, 'not a map lookup (%s)' % sorted('%s:%s' % (o.kind, o.key) for o in others)
     for g in gets:
@@ -77,16 +79,24 @@ def loop_mtime_ok(F, body, arg_op, max_hops=3):
     # a mapping closure, if any, projects `.mtime` only; without one the whole FileMeta is handed on (the callee must project)
     projected = False
     for o in os_:
-        if o.kind == 'agg' and F.body(o.key) is not None:
-            cb = F.body(o.key)
-            ro = flow_of(cb).origins(0)
-            if not (ro and all(x.kind == 'param' and x.path == ('mtime',) for x in ro)):
-                return False, 'mapping closure is not |m| m.mtime'
+        if (o.kind == 'agg' and F.body(o.key) is not None) or o in fnmaps:
+            cb = F.body(o.key) if o.kind == 'agg' else F.body(str(o.key)[3:])
+            cfl = flow_of(cb)
+            ro = {x for x in cfl.origins(0) if x.kind not in ('comb',) and not (x.kind == 'agg' and str(x.key).endswith('option::Option::Some'))}
+            # |m| m.mtime, or (for and_then / a function item) Some(m.mtime) on every path: nothing else may be returned
+            plain = bool(ro) and all(x.kind == 'param' and x.path[-1:] == ('mtime',) for x in ro)
+            if plain and not cb.local_ty(0).startswith(('i64', 'u64')):
+                # Option-returning mapper: every value it returns is built as Some(..)
+                for rb_, kind_, data_ in ret_defs(cb):
+                    if not (kind_ == 'assign' and data_['k'] == 'agg' and data_.get('vname') == 'Some'):
+                        plain = False
+            if not plain:
+                return False, 'the mapper %s is not |m| m.mtime (it returns %s)' % (cb.path.split('::')[-1], sorted({'%s:%s' % (x.kind, x.key) for x in ro})[:3])
             projected = True
     return True, ('projected' if projected else 'whole')
 
 
-def r2(ctx, F):
+def r2(ctx, F, rid='C14.R2'):
     cg = callgraph_of(F)
     # (a) inside the delivery fns: set_local_mtime(dst, t) with t a pure copy of ONE parameter (the Option<i64> itself, or the
     #     `.mtime` of an Option<FileMeta>), on the path that was renamed onto, after the rename
@@ -100,7 +110,7 @@ def r2(ctx, F):
             entry = RUN_LOCAL if fn.endswith('deliver_local') else RUN_REMOTE
             hosts = [x for x in F.nested(entry) if flow_of(x).calls_to('meta::set_local_mtime') and flow_of(x).calls(lambda c: c.endswith('fs::rename'))]
             if not hosts:
-                ctx.missing('C14.R2', '%s (or its body written out under %s)' % (fn, entry))
+                ctx.missing(rid, '%s (or its body written out under %s)' % (fn, entry))
             for hb in hosts:
                 hfl = flow_of(hb)
                 renames = hfl.calls(lambda c: c.endswith('fs::rename'))
@@ -110,12 +120,12 @@ def r2(ctx, F):
                     dkey = lambda op_: {(o.kind, str(o.key), o.bb, tuple(o.path)) for o in hfl.origins(op_) if o.kind != 'comb'}
                     dst_ok = any(dkey(rt_['args'][1]) == dkey(st['args'][0]) for rb_, rt_ in renames)
                     after = all(hfl.guarded_by(sb, rb_, 'Ok') for rb_, _ in renames)
-                    ctx.check(pure and dst_ok and after, 'C14.R2', '%s:set_local_mtime(dst, t)' % fn.split('::')[-1], 'time = the source metadata mtime of the loop path, on the delivered file, after the rename',
+                    ctx.check(pure and dst_ok and after, rid, '%s:set_local_mtime(dst, t)' % fn.split('::')[-1], 'time = the source metadata mtime of the loop path, on the delivered file, after the rename',
                               'the written-out %s sets a modified value / on another path / before the rename (time=%s (%s), dst=%s, after rename=%s)' % (fn.split('::')[-1], pure, why, dst_ok, after), term_loc(hb, sb))
                     inlined_deliveries.append(fn)
             continue
         if b is None:
-            ctx.bad('C14.R2', '%s:set_local_mtime-exists' % fn.split('::')[-1], '%s no longer sets the destination mtime' % fn, None)
+            ctx.bad(rid, '%s:set_local_mtime-exists' % fn.split('::')[-1], '%s no longer sets the destination mtime' % fn, None)
             continue
         fl = flow_of(b)
         for sb, st in fl.calls_to('meta::set_local_mtime'):
@@ -160,7 +170,7 @@ def r2(ctx, F):
                                 oc_ = fl.outcomes(cb_)
                                 after = bool(oc_.get('Ok')) and fl.cfg.edges_guard(oc_['Ok'], sb)
                 dst_ok = ps is not None and len(ps) == 1 and ps == rdst
-            ctx.check(pure and dst_ok and after, 'C14.R2', '%s:set_local_mtime(dst, t)' % fn.split('::')[-1], 'time = one parameter (or its .mtime) unchanged, on the delivered file, after the rename',
+            ctx.check(pure and dst_ok and after, rid, '%s:set_local_mtime(dst, t)' % fn.split('::')[-1], 'time = one parameter (or its .mtime) unchanged, on the delivered file, after the rename',
                       '%s sets a modified value / on another path / before the rename (pure=%s, dst=%s, after rename=%s)' % (fn, pure, dst_ok, after), term_loc(b, sb))
     # (b) at the call sites: that parameter is src_meta.get(rel) of the loop path, with the `.mtime` projection on exactly one side
     n = 0
@@ -176,10 +186,10 @@ def r2(ctx, F):
                     if outer == inner:
                         ok, why = False, ('`.mtime` is projected twice' if outer else 'the whole FileMeta is handed over but never projected to `.mtime`')
                 n += 1
-                ctx.check(ok, 'C14.R2', '%s:%s(mtime)' % (key, c.split('::')[-1]), 'mtime = src_meta.get(rel).map(|m| m.mtime)',
+                ctx.check(ok, rid, '%s:%s(mtime)' % (key, c.split('::')[-1]), 'mtime = src_meta.get(rel).map(|m| m.mtime)',
                           'the mtime handed to %s is not the source metadata\'s mtime of the same path: %s' % (c.split('::')[-1], why), term_loc(body, cb))
     if n + len(set(inlined_deliveries)) < 3:
-        ctx.missing('C14.R2', 'delivery call sites (found %d)' % n)
+        ctx.missing(rid, 'delivery call sites (found %d)' % n)
     # push: the @{t} hole is the mtime parameter
     b = work_body(F, 'transfer::transfer_file_to_remote', ['tokio::process::Command::new'])
     cmds = shtemplate.ssh_commands(F, b) if b is not None else []
@@ -198,7 +208,7 @@ def r2(ctx, F):
                         w = ws[i + 1]
                         if len(w) == 2 and w[0].kind == 'lit' and w[0].text == '@' and w[1].kind == 'hole' and holes[w[1].hole][1] == 'int':
                             ok = conn == '&&'
-    ctx.check(ok, 'C14.R2', 'push:touch -d @{mtime}', 'remote mtime set by `&& touch -d @<integer seconds>` on the published file',
+    ctx.check(ok, rid, 'push:touch -d @{mtime}', 'remote mtime set by `&& touch -d @<integer seconds>` on the published file',
               'the push command does not set the destination mtime from the integer source mtime', loc(b, b.lo) if b is not None else None)
 
 
